@@ -396,11 +396,105 @@ def check_function(repo, fn: FuncInfo, descriptor_attrs: Optional[Dict[str, Set[
         return None
 
     stores = []
+    local_stores = []
     for n in walk_local(fn.node):
-        if isinstance(n, ast.Assign) and len(n.targets) == 1 and isinstance(n.targets[0], ast.Subscript) and not isinstance(n.targets[0].slice, ast.Slice):
-            kind = cache_kind(n.targets[0].value)
-            if kind:
-                stores.append((n, n.targets[0].value, n.targets[0].slice, n.value, kind))
+        if not isinstance(n, ast.Assign):
+            continue
+        subs = [t for t in n.targets if isinstance(t, ast.Subscript) and not isinstance(t.slice, ast.Slice)]
+        if len(subs) != 1 or not all(isinstance(t, (ast.Subscript, ast.Name)) for t in n.targets):
+            continue
+        tgt = subs[0]
+        kind = cache_kind(tgt.value)
+        if kind:
+            stores.append((n, tgt.value, tgt.slice, n.value, kind))
+        elif isinstance(tgt.value, ast.Name) and tgt.value.id in local_assigned and len(local_assigned[tgt.value.id]) == 1:
+            v0 = local_assigned[tgt.value.id][0]
+            if isinstance(v0, ast.Dict) and not v0.keys or (isinstance(v0, ast.Call) and norm(v0.func) in ("dict", "OrderedDict", "LRUCache") and not v0.args and not v0.keywords):
+                local_stores.append((n, tgt.value, tgt.slice, n.value))
+    # (2b) a dict created afresh in this call but filled and consulted inside a loop: a memo over the loop's iterations.
+    # Every term of the cached value that varies with the loop (a loop variable or an attribute chain on one) must be a term of the key.
+    parent_of = mod.parent_of
+    for n, cont, key, val in local_stores:
+        loops = []
+        cur = parent_of.get(n)
+        while cur is not None and cur is not fn.node:
+            if isinstance(cur, (ast.For, ast.While)):
+                loops.append(cur)
+            cur = parent_of.get(cur)
+        if not loops:
+            continue
+        reads = [x for x in walk_local(fn.node) if (
+            (isinstance(x, ast.Call) and isinstance(x.func, ast.Attribute) and x.func.attr == "get" and norm(x.func.value) == norm(cont)) or
+            (isinstance(x, ast.Subscript) and isinstance(x.ctx, ast.Load) and norm(x.value) == norm(cont)) or
+            (isinstance(x, ast.Compare) and any(isinstance(o, (ast.In, ast.NotIn)) for o in x.ops) and norm(x.comparators[0]) == norm(cont)))]
+        if not reads:
+            continue
+        loop_vars: Set[str] = set()      # targets of the enclosing for-loops: what varies per iteration
+        temp_defs: Dict[str, List[ast.AST]] = {}   # names assigned inside the loops: expanded through their definitions
+        for lp in loops:
+            if isinstance(lp, ast.For):
+                loop_vars |= {x.id for x in ast.walk(lp.target) if isinstance(x, ast.Name)}
+            for x in ast.walk(lp):
+                if isinstance(x, (ast.Assign, ast.AnnAssign)) and getattr(x, "value", None) is not None:
+                    for t in (x.targets if isinstance(x, ast.Assign) else [x.target]):
+                        if isinstance(t, ast.Name):
+                            temp_defs.setdefault(t.id, []).append(x.value)
+                        elif isinstance(t, (ast.Tuple, ast.List)):
+                            for y in t.elts:
+                                if isinstance(y, ast.Name):
+                                    temp_defs.setdefault(y.id, []).append(x.value)
+                elif isinstance(x, ast.AugAssign) and isinstance(x.target, ast.Name):
+                    temp_defs.setdefault(x.target.id, []).append(x.value)
+                elif isinstance(x, ast.For) and x is not lp:
+                    loop_vars |= {y.id for y in ast.walk(x.target) if isinstance(y, ast.Name)}
+        loop_vars.discard(norm(cont))
+        cont_name = norm(cont)
+
+        def reads_cache(e) -> bool:
+            return any(isinstance(y, ast.Name) and y.id == cont_name for y in ast.walk(e))
+        from .astutil import inline as _inl, single_defs as _sdf
+        sd = {k_: v_ for k_, v_ in _sdf(fn.node).items() if k_ != cont_name}
+        kx, vx = _inl(key, sd), _inl(val, sd)
+
+        def terms(e, depth=0, seen=None):
+            seen = seen if seen is not None else set()
+            out = set()
+
+            def rec(x):
+                if isinstance(x, ast.Attribute):
+                    b = x
+                    while isinstance(b, ast.Attribute):
+                        b = b.value
+                    if isinstance(b, ast.Name) and b.id in loop_vars:
+                        out.add(norm(x))
+                        return
+                if isinstance(x, ast.Name) and isinstance(x.ctx, ast.Load):
+                    if x.id in loop_vars:
+                        out.add(x.id)
+                        return
+                    if x.id in temp_defs and x.id not in seen and depth < 4:
+                        seen.add(x.id)
+                        for d_ in temp_defs[x.id]:
+                            if not reads_cache(d_):
+                                out.update(terms(d_, depth + 1, seen))
+                        return
+                for c_ in ast.iter_child_nodes(x):
+                    if isinstance(x, ast.Call) and c_ is x.func and isinstance(c_, ast.Attribute):
+                        rec(c_.value)
+                    else:
+                        rec(c_)
+            rec(e)
+            return out
+        kt, vt = terms(kx), terms(vx)
+        desc = f"per-call cache `{norm(cont)}` filled inside a loop of {fn.qualname}"
+        sites.append(Site(fn, "dict:local", desc, n))
+        missing = sorted(t for t in vt if t not in kt and not any(t.startswith(k_ + ".") for k_ in kt if "." not in k_))
+        if missing:
+            problems.append(Problem(fn, n, short(n), f"{desc}: the cached value is computed from {missing}, which change from one iteration to the next but are not part of the key `{norm(key)}` - a later iteration with the same key gets the value made for an earlier one"))
+        for rd in reads:
+            rk = rd.args[0] if isinstance(rd, ast.Call) else (rd.slice if isinstance(rd, ast.Subscript) else rd.left)
+            if norm(_inl(rk, sd)) != norm(kx):
+                problems.append(Problem(fn, rd, short(rd), f"{desc}: looked up under `{norm(rk)}` but stored under `{norm(key)}`"))
     for n, cont, key, val, kind in stores:
         # only treat as a memo cache if the same container is also read in this function under a key
         reads = [x for x in walk_local(fn.node) if (
